@@ -222,6 +222,9 @@ def c12(v):
                             "%s starts at t=%s but its last requirement "
                             "finished (or its scheduler began) at t=%s"
                             % (c, b[T], due_t)))
+                elif not any(not v.spec[k].get('forever') for k in kids):
+                    pass    # no non-forever job: when such a run ends is
+                    #         not specified, so "never started" is not judged
                 elif me is None or due_t < me[T] or (
                         due_t == me[T] and not legit_end_at(v, s, due_t)):
                     # eligible strictly before the scheduler left its main
@@ -430,7 +433,7 @@ def is_flat(v, s):
 CANCELS = ('cancel', 'run_cancel', 'creq')
 
 
-def check_abort(v, s, seq0, t0, tag, what):
+def check_abort(v, s, seq0, t0, tag, what, cause_iter=None):
     """common to C05/C08/C09: from log position seq0 (virtual instant t0)
     scheduler s must start nothing more, cancel what runs, and end after the
     cancellations and the bounded shutdown phase.  `only` restricts the
@@ -468,6 +471,16 @@ def check_abort(v, s, seq0, t0, tag, what):
                                                            x[0][T]))))
             elif x[0][KIND] in ('cancel', 'creq') and not v.is_sched(k):
                 cancelled_cd = max(cancelled_cd, v.spec[k].get('cdelay', 0))
+    # no task is created for a job of s in a later loop iteration than the
+    # one of the cause (the library says STARTING at that point)
+    if cause_iter is not None:
+        for k in kids:
+            for e in v.evs('sched', k):
+                if e[IT] > cause_iter:
+                    viols.append((tag + ':scheduled-after',
+                                  "a task is created for %s at loop iteration "
+                                  "%d t=%s although %s at iteration %d t=%s"
+                                  % (k, e[IT], e[T], what, cause_iter, t0)))
     # nothing deeper inside s may enter its body after the abort either,
     # unless in that same instant and cancelled (or finished) in it
     for d in v.descendants(s):
@@ -649,7 +662,7 @@ def c05(v):
                for k in kids if k != c[NAME]):
             trig = True
         viols += check_abort(v, s, c[SEQ], c[T], 'c05',
-                             "critical job %s raises" % c[NAME])
+                             "critical job %s raises" % c[NAME], c[IT])
     return viols, trig
 
 
@@ -732,7 +745,8 @@ def c09(v):
         if any(v.inside(k, f[SEQ]) or not v.begin(k) for k in fk):
             trig = True
         viols += check_abort(v, s, f[SEQ], f[T], 'c09',
-                             "the last non-forever job %s finishes" % f[NAME])
+                             "the last non-forever job %s finishes" % f[NAME],
+                             f[IT])
         x = v.exit(s)
         if x is not None:
             for k in fk:
@@ -749,6 +763,17 @@ def c09(v):
             viols.append(('c09:waits-forever',
                           "all non-forever jobs of %s are finished at t=%s but "
                           "its run never ends" % (s, f[T])))
+    return viols, trig
+
+
+def c09_full(v):
+    """C09 proper, plus 'until then forever jobs start under the same
+    requirement and window rules as any job': C01, C07 and C12 on the same
+    execution"""
+    viols, trig = c09(v)
+    for m in (c01, c07, c12):
+        vi, _ = m(v)
+        viols += [('c09/' + k, msg) for k, msg in vi]
     return viols, trig
 
 
